@@ -76,6 +76,19 @@ def regions_of(dump, defs, extra=()):
     return regs
 
 
+def duplicate_sources(d):
+    """does some node of the dump declare two properties with one JSON name (the later overwrites the earlier in the emitted dict)"""
+    if isinstance(d, dict):
+        if "props" in d:
+            srcs = [k.get("source") or k["name"] for k, _ in d["props"]]
+            if len(set(srcs)) != len(srcs):
+                return True
+        return any(duplicate_sources(v) for v in d.values())
+    if isinstance(d, list):
+        return any(duplicate_sources(v) for v in d)
+    return False
+
+
 def check_tree(drv, el, dump, defs, values, out, stats, history=(), extra=(), note=None):
     """defs: list of (key, real element, dump); history: the definitions of earlier serializations of this same tree object;
     extra: further (element, dump) pairs passed after the primary (`serialize_json(el, *extra)`)."""
@@ -150,10 +163,39 @@ def check_tree(drv, el, dump, defs, values, out, stats, history=(), extra=(), no
         fail("the serialized document is not metaschema-valid",
              "C03-empty-tuple-items" if "C03-empty-tuple-items" in regs else "C03-duplicate-class-names")
         return
+    # the schema-level model of the serializer (`toSchema`, the object of C03_partial_meaning / C06_partial_round_trip) against
+    # the real document, and the theorem's statement evaluated on the real code wherever its hypotheses hold
+    ts = None
+    if not defs and not extra:
+        ts = drv.ask({"op": "to_schema", "elem": dump, "doc": core.enc_val(flat), "args": enc_args, "tables": core.schema_tables(flat, values)})
+        if "error" in ts:
+            stats["to_schema-driver-error"] = stats.get("to_schema-driver-error", 0) + 1
+            ts = None
+        else:
+            # outside the tie: two properties of one JSON name (the dict keeps the later), two classes of one name (one
+            # `definitions` entry serves both: the recorded finding) -- there `serElem` is the model, not `toSchema`
+            in_tie = not duplicate_sources(dump) and "C03-duplicate-class-names" not in regs
+            label = "to_schema-" + ("same" if ts["same"] else ("differs-outside-tie" if not in_tie else "DIFFERS"))
+            stats[label] = stats.get(label, 0) + 1
+            if not ts["same"] and in_tie:
+                out.disagreements.append({"what": "toSchema (schema-level serializer model) vs dereferenced serialize_json output", "impl": flat, **case})
+            hyp = ts["nf"] and ts["good"]
+            stats["theorem-hypotheses-" + ("hold" if hyp else ("notNF" if not ts["nf"] else "notGood"))] = \
+                stats.get("theorem-hypotheses-" + ("hold" if hyp else ("notNF" if not ts["nf"] else "notGood")), 0) + 1
+            if ts["nf"] and not ts["round_trip_identity"]:
+                out.disagreements.append({"what": "model: NF tree whose model round trip is not the identity (contradicts C06_partial_round_trip)", **case})
     for i, v in enumerate(values):
         real_v = core.real_call(el, v)
         if real_v["r"] not in ("ok", "reject") or not spec["distinct_keys"][i]:
             continue
+        if ts is not None and ts["same"] and ts["nf"] and ts["good"] and ts["calls"][i]["r"] != "crash":
+            # C03_partial_meaning, on the real code: accepts iff Draft 6 (library's reading of the waiver) says valid
+            stats["theorem-instances-on-real-code"] = stats.get("theorem-instances-on-real-code", 0) + 1
+            if (real_v["r"] == "ok") != ts["valid"][i]:
+                out.failures.append({"case": {**case, "value": core.enc_arg(v)}, "finding": None,
+                                     "what": f"inside the hypotheses of C03_partial_meaning the real element {'accepts' if real_v['r'] == 'ok' else 'rejects'} "
+                                             f"{json.dumps(v)[:80]} while its serialization, read by Draft 6, says {'valid' if ts['valid'][i] else 'invalid'}"})
+                return
         got = real_v["r"] == "ok"
         allowed = {spec["impl_leniency"][i], spec["strict"][i], spec["lenient"][i]}
         stats["values-compared"] = stats.get("values-compared", 0) + 1
